@@ -1,7 +1,8 @@
 CONSTANTS
   Remedy = {"r1", "r2"}
   Group = {"a", "b", "u"}
-  W <- cW
+  W0 <- cW
+  WChoices = {2, 4}
   Allowed <- cAllowed
   Pct <- cPct
   DefBehav <- cDefBehav
